@@ -120,4 +120,28 @@ def run(repo='/repo', tier='quick'):
                 res.check(ok, 'C15.f', '%s:decoder_cfgs[%s]' % (n_, P.K(x_['idx'])), 'subscripted with the context parameter (or the defaults loop index)',
                           '%s is given its decoder context as a parameter but reads decoder_cfgs[%s]: the options of another context (the path decoder\'s) are applied to this one' % (n_, P.K(x_['idx'])), x_['loc'])
     res.floor('C15.f', 'decoder_cfgs subscripts in functions that are given a context', nctx, 30)
+    c15g(db, res)
     return res
+
+
+def c15g(db, res):
+    """Decoding of names and values (percent, plus, and - in the same pass - raw and encoded NUL handling) is part of the
+    reference rule "per configuration": which decoding happens is decided by the transaction's decoder configuration, not by a
+    look at the input. The parser's own on/off switch is set once, by its constructor."""
+    res.rule('C15.g', 'decoding is not switched off by looking at the input: the decode switch of the urlencoded parser (decode_url_encoding) is written only by the parser\'s constructor / its setter, never by the library code that feeds it')
+    writers = []
+    for name, f in sorted(db.fn.items()):
+        if not f.blocks:
+            continue
+        for b, i, x in P.field_writes(f, 'decode_url_encoding'):
+            writers.append((name, x))
+    for name, f in sorted(db.fn.items()):
+        if f.blocks:
+            for b, i, c in f.calls('htp_urlenp_set_decode_url_encoding'):
+                writers.append((name, c))
+    n = len(writers)
+    for name, x in writers:
+        ok = name in ('htp_urlenp_create', 'htp_urlenp_set_decode_url_encoding')
+        res.check(ok, 'C15.g', '%s:writes:decode_url_encoding' % name, 'the constructor / setter',
+                  '%s switches the decoding of a urlencoded parser on or off (%s): the skipped pass is also where NUL bytes terminate a field and invalid encodings are handled, so the reported names and values no longer follow the configured decoding for some inputs' % (name, S(x)[:60]), x['loc'])
+    res.floor('C15.g', 'writers of the decode switch', n, 1)
